@@ -283,3 +283,9 @@ func resetProcessState() {
 		f()
 	}
 }
+
+// Zero resets a package-level variable to its zero value (generated reset hooks).
+func Zero[T any](p *T) {
+	var z T
+	*p = z
+}
